@@ -578,7 +578,43 @@ def bounded(chk):
     chk.bounded_result("collect_page_data_on_page_shapes", n1, n1, True,
                        "all lists of <= 3 API page entries of 5 kinds (missing page, full page, revisions only, images only, empty): no exception, unions over all entries, newest revision per title",
                        [f1] if f1 else [])
+    n3, f3 = redirect_contributors_case()
+    chk.bounded_result("contributors_of_a_redirect_listed_by_title", n3, n3, True,
+                       "real MwApi.get_contributors (merge_data) + real _lookup_contributors on the API answer for a redirect whose target is not listed", [f3] if f3 else [])
     n2, f2 = contributors_schedule_search(max_orders=400 if chk.tier == "quick" else 6000)
     chk.bounded_result("contributor_lookups_under_answer_orders", n2, n2, False,
                        "5 titles, api_request_limit 2, real Fetcher methods on gevent greenlets, stub API whose concurrent answers are released in every order of the first 400 (quick) / 6000 (thorough) schedules of length 6..10, then the real final flush: every title's contributors are stored",
                        [f2] if f2 else [])
+
+
+def redirect_contributors_case():
+    """a redirect listed by title (its target is not listed): the real MwApi.get_contributors fed with the API's answer
+    (redirects: Redir -> Target, page Target with its contributors) through the real _lookup_contributors must store
+    the target's contributors under the listed title"""
+    from mwlib.network import fetch, sapi
+    api = sapi.MwApi.__new__(sapi.MwApi)
+    api.rvlimit = 500
+    answers = [{"redirects": [{"from": "Redir", "to": "Target"}],
+                "pages": {"7": {"title": "Target", "anoncontributors": 1, "contributors": [{"name": "Tina"}, {"name": "SomeBot"}]}}}]
+
+    def do_request(action=None, merge_data=None, **kw):
+        for a in answers:
+            merge_data(None, a)
+        return {}
+    api.do_request = do_request
+
+    class Out:
+        def __init__(self):
+            self.stored = {}
+
+        def set_db_key(self, name, key, value):
+            self.stored[key] = value
+    f = fetch.Fetcher.__new__(fetch.Fetcher)
+    f.fsout = Out()
+    f.title_mapping = {}
+    f._lookup_contributors(api, "Redir")
+    got = f.fsout.stored.get("Redir")
+    if not got or "Tina" not in got or not any(str(x).startswith("ANONIPEDITS:1") for x in got) or any("Bot" in str(x) for x in got):
+        return 1, {"detail": f"metabook lists the redirect 'Redir' (-> 'Target'): contributors stored under 'Redir': {got!r}, the wiki reports Tina + 1 anonymous edit for the page it serves",
+                   "witness": {"listed": "Redir", "redirects": answers[0]["redirects"], "stored": {k: v for k, v in f.fsout.stored.items()}}, "class": "redirect-without-contributors"}
+    return 1, None
